@@ -233,7 +233,7 @@ def compare_parsed(parsed, expect, what, viols, header):
 
 
 def gen_cases(tier, seed):
-    n = 96 if tier == "quick" else 3000
+    n = 240 if tier == "quick" else 3000
     cases = []
     for i in range(n):
         cases.append({"i": i, "seed": [seed, tier, i], "header": [0, 1, 2, 6][i % 4], "fmt": ["nwchem", "gbs"][(i // 4) % 2],
